@@ -259,6 +259,19 @@ func (n *Net) connClosed(c *Conn, by string) {
 	n.mu.Unlock()
 }
 
+// CloseConnsOf closes every connection to the named target (used to end
+// upgraded connections that nobody else would close).
+func (n *Net) CloseConnsOf(target string) {
+	n.mu.Lock()
+	conns := append([]*Conn(nil), n.conns...)
+	n.mu.Unlock()
+	for _, c := range conns {
+		if c.Target == target {
+			c.peer.closeSide("target")
+		}
+	}
+}
+
 // Close tears the network down: every connection is closed.
 func (n *Net) Close() {
 	n.mu.Lock()
